@@ -195,7 +195,8 @@ def run(ctx):
     def s_fopen9(ex_, st, args, f_, e):
         mode = args[1][1] if len(args) > 1 and args[1][0] == "str" else "?"
         return [(PTR("FILE:" + mode), {})]
-    sums9 = {"fopen": s_fopen9, "fread": lambda ex_, st, a, f_, e: [(INT(0), {})],
+    sums9 = {"fopen": s_fopen9, "fdopen": s_fopen9, "open": lambda ex_, st, a, f_, e: [(INT(9), {})],
+             "fsync": lambda ex_, st, a, f_, e: [(INT(0), {})], "fread": lambda ex_, st, a, f_, e: [(INT(0), {})],
              "ferror": lambda ex_, st, a, f_, e: [(INT(0), {})], "fclose": lambda ex_, st, a, f_, e: [(INT(0), {})],
              "fflush": lambda ex_, st, a, f_, e: [(INT(0), {})], "remove": lambda ex_, st, a, f_, e: [(INT(0), {})]}
     ex9 = absint.Explorer(prog, effects=eff, summaries=sums9, loop_bound=3)
